@@ -34,6 +34,8 @@ pub struct Reporter {
     known: Vec<Known>,
     pub by_sig: BTreeMap<String, (usize, Violation, Option<String>)>,
     pub max_replays: usize,
+    /// replay / single-source mode: print the verdict lines, touch no file
+    pub dry: bool,
 }
 
 pub fn load_known() -> Vec<Known> {
@@ -49,7 +51,7 @@ pub fn load_known() -> Vec<Known> {
 
 impl Reporter {
     pub fn new(property: &str) -> Reporter {
-        Reporter { property: property.into(), known: load_known(), by_sig: BTreeMap::new(), max_replays: 25 }
+        Reporter { property: property.into(), known: load_known(), by_sig: BTreeMap::new(), max_replays: 25, dry: false }
     }
 
     fn match_known(&self, v: &Violation) -> Option<String> {
@@ -94,6 +96,21 @@ impl Reporter {
         let mut new = 0usize;
         let mut known_hits: BTreeMap<String, usize> = BTreeMap::new();
         let mut sigs = vec![];
+        if self.dry {
+            for (sig, (n, v, k)) in &self.by_sig {
+                match k {
+                    Some(id) => println!("KNOWN-FINDING: property={} [{}] ({} occurrences) {}", v.property, id, n, sig),
+                    None => {
+                        new += 1;
+                        println!("VIOLATION property={} replay=(replayed) occurrences={}", v.property, n);
+                        println!("  signature: {sig}");
+                        println!("  detail: {}", serde_json::to_string(&v.detail).unwrap_or_default().chars().take(1200).collect::<String>());
+                    }
+                }
+            }
+            ev.violations = new;
+            return if new > 0 { 1 } else { 0 };
+        }
         std::fs::create_dir_all(format!("{VERIF_DIR}/replays")).ok();
         // replay files of earlier runs of this property are stale once it has been re-decided
         if let Ok(rd) = std::fs::read_dir(format!("{VERIF_DIR}/replays")) {
